@@ -271,6 +271,8 @@ impl Prop for C11 {
         ]
     }
     fn run_case(&self, cx: &mut Cx) {
+        // seeds here are enumerated prefix by prefix and token by token: keep them short (long lines have their own generator)
+        crate::gen::lefgen::set_long_statements(false);
         match cx.gen.as_str() {
             "prefixes" => {
                 let na = cx.n % 2 == 0;
